@@ -3,6 +3,8 @@ CONSTANTS
   MinN = 0
   MaxN = 6
   TwinMaxN = 5
+  RetMaxN = 5
+  TruthTest = "truthy"
 CONSTRAINT Export
 INVARIANT ImplRefinesReq
 INVARIANT ImplCallsDistinct
